@@ -134,6 +134,14 @@ def shard(ctx):
 
     # (4) other interpreters: generated modules at their feature level; python 2 templates on 2.7
     fleet.run_fleet_share(ctx, 'roundtrip', ctx.n(2400, 80000))
+    fleet.run_fixed(ctx, 'roundtrip', exhaustive.version_sensitive_sources())
+    for src in exhaustive.version_sensitive_sources():
+        if ctx.index == 0:
+            c = {'source': src}
+            r = oracle(c)
+            ctx.case(sha('fixed', src), True, classes=['version-sensitive:host'])
+            if r is not None:
+                ctx.fail_direct(c, r[0], r[1])
     if ctx.index % 4 == 0:
         py2.run_py2(ctx, 'roundtrip', ctx.n(1200, 30000) * 4)
 
